@@ -55,7 +55,7 @@ type c11Env struct {
 func c11Open() *c11Env {
 	db, vdb := rockredis.VerifOpenDB()
 	w := &c11Wait{}
-	sm := &kvStoreSM{fullNS: "ns-0", store: &KVStore{RockDB: db, opts: &KVOptions{}}, router: common.NewSMCmdRouter(), cRouter: NewConflictRouter(),
+	sm := &kvStoreSM{fullNS: "ns-0", store: &KVStore{RockDB: db, opts: &KVOptions{EngType: rockredis.EngType}}, router: common.NewSMCmdRouter(), cRouter: NewConflictRouter(),
 		w: w}
 	sm.registerHandlers()
 	nd := &KVNode{router: common.NewCmdRouter(), machineConfig: &MachineConfig{}, sm: sm, store: sm.store}
@@ -102,6 +102,7 @@ func c11Prestate(e *c11Env, key []byte) {
 }
 
 func Verif_C11_WriteCommands_NoPanic_NoPartialWrite() {
+	vsym.FreezeClock(int64(1700000200) * 1e9) // wall-clock time only feeds slow-logs and latency metrics here
 	e := c11Open()
 	defer e.done()
 	name := c11Cmds[vsym.Choose("cmd", len(c11Cmds))]
@@ -185,3 +186,137 @@ func Verif_C11_WriteCommands_NoPanic_NoPartialWrite() {
 }
 
 var _ redcon.Command
+
+func VerifModel_node_KVNode_RedisPropose(nd *KVNode, buf []byte) (interface{}, error) {
+	c11Proposed = append(c11Proposed, append([]byte{}, buf...))
+	return nil, nil
+}
+
+// c11KeyShape: a key with or without table separator, empty table or empty key part; one arbitrary byte.
+func c11KeyShape(symbolic bool) []byte {
+	b := []byte{'b'}
+	if symbolic {
+		b = vsym.Bytes("key", 1)
+	}
+	switch vsym.Choose("keyshape", 5) {
+	case 0:
+		return []byte{}
+	case 1:
+		return b // no separator unless the byte is ':'
+	case 2:
+		return append([]byte("t:"), b...)
+	case 3:
+		return append([]byte(":"), b...)
+	default:
+		return []byte("t:")
+	}
+}
+
+// Multi-key writes (the per-partition sub-commands the server builds for MSET/DEL: plset, del): a later
+// element that fails at apply time must not leave the earlier elements behind - neither in the store nor
+// in the shared write batch, where the next command would commit them.
+func Verif_C11_MultiKey_NoPartialWrite() {
+	vsym.FreezeClock(int64(1700000200) * 1e9) // wall-clock time only feeds slow-logs and latency metrics here
+	e := c11Open()
+	defer e.done()
+	names := []string{"plset", "del"}
+	name := names[vsym.Choose("cmd", len(names))]
+	ts := int64(1700000000) * 1e9
+	if vsym.Choose("prestate", 2) == 1 {
+		e.sm.store.KVSet(ts, []byte("t:a"), []byte("0"))
+	}
+	nkeys := 2 + vsym.Choose("nkeys", 2)
+	args := [][]byte{[]byte(name)}
+	var keys [][]byte
+	for i := 0; i < nkeys; i++ {
+		var k []byte
+		if i == 0 && vsym.Choose("firstvalid", 2) == 1 {
+			k = []byte("t:a")
+		} else {
+			k = c11KeyShape(true)
+		}
+		keys = append(keys, k)
+		if i == nkeys-1 && vsym.Choose("nonamespace", 2) == 1 {
+			args = append(args, []byte("nons")) // no namespace separator: rejected before anything is proposed
+		} else {
+			args = append(args, append([]byte("ns:"), k...))
+		}
+		if name == "plset" {
+			args = append(args, vsym.Bytes("val", 1))
+		}
+	}
+	// ---- leader side ----
+	c11Proposed = nil
+	var raw []byte
+	if vsym.Symbolic() {
+		h, _, ok := e.nd.router.GetMergeCmdHandler(name)
+		vsym.Assert(ok, "command is registered on the leader side")
+		cp := make([][]byte, len(args))
+		for i := range args {
+			cp[i] = append([]byte{}, args[i]...)
+		}
+		h(common.BuildCommand(cp))
+		if len(c11Proposed) > 0 {
+			raw = c11Proposed[0]
+		}
+	}
+	if !vsym.NoteBool("proposed", len(c11Proposed) > 0) {
+		vsym.Reach("rejected")
+		vsym.Reach("end")
+		return
+	}
+	if !vsym.Symbolic() {
+		cut := [][]byte{[]byte(name)}
+		ki := 0
+		for i := 1; i < len(args); i++ {
+			if name == "del" || i%2 == 1 {
+				cut = append(cut, keys[ki])
+				ki++
+			} else {
+				cut = append(cut, args[i])
+			}
+		}
+		raw = common.BuildCommand(cut).Raw
+	}
+	// ---- apply side, with the batch operator living across entries as in the node's apply loop ----
+	keys0, vals0 := e.vdb.Snapshot()
+	batch := &kvbatchOperator{kvsm: e.sm, dupCheckMap: map[string]bool{}}
+	req := BatchInternalRaftRequest{ReqNum: 1, Timestamp: ts + 100e9,
+		Reqs: []InternalRaftRequest{{Header: RequestHeader{ID: 1, DataType: int32(RedisReq)}, Data: raw}}}
+	_, err := e.sm.ApplyRaftRequest(false, batch, req, 1, 1, nil)
+	batch.CommitBatch()
+	vsym.Assert(err == nil, "apply returns no fatal error")
+	failed := len(e.w.errs) > 0
+	if vsym.Symbolic() {
+		vsym.Assert(e.vdb.PendingBatchOps() == 0, "nothing is left in the shared write batch after the command")
+	}
+	// the next, unrelated command (not batchable: commits the shared write batch by itself)
+	req2 := BatchInternalRaftRequest{ReqNum: 1, Timestamp: ts + 101e9,
+		Reqs: []InternalRaftRequest{{Header: RequestHeader{ID: 2, DataType: int32(RedisReq)}, Data: common.BuildCommand([][]byte{[]byte("incr"), []byte("u:zz")}).Raw}}}
+	_, err = e.sm.ApplyRaftRequest(false, batch, req2, 1, 2, nil)
+	batch.CommitBatch()
+	vsym.Assert(err == nil, "second apply returns no fatal error")
+	if failed {
+		// everything the store had before is still there unchanged, and the only new key is the second command's
+		for i := range keys0 {
+			v, _ := e.sm.store.GetBytes(keys0[i])
+			vsym.Assert(v != nil && len(v) == len(vals0[i]) && vsym.BytesEq(v, vals0[i]), "a failed multi-key write leaves existing keys unchanged")
+		}
+		for i := range keys {
+			if len(keys[i]) == 3 && vsym.And(keys[i][0] == 't', vsym.And(keys[i][1] == ':', keys[i][2] != 'a')) && true {
+				v, _ := e.sm.store.KVGet(keys[i])
+				vsym.Assert(v == nil, "no element of a failed multi-key write becomes visible after the next command")
+			}
+		}
+		if string(keys[0]) == "t:a" {
+			v, _ := e.sm.store.KVGet(keys[0])
+			if len(keys0) == 0 {
+				vsym.Assert(v == nil, "the first element of a failed multi-key write is not visible after the next command")
+			} else {
+				vsym.Assert(len(v) == 1 && v[0] == '0', "the first element of a failed multi-key write keeps its old value")
+			}
+		}
+		vsym.Reach("failed")
+	}
+	vsym.Reach("end")
+}
